@@ -133,7 +133,7 @@ Definition deactivate (j : nat) (s : lsrv) : lsrv :=
   | None => s
   | Some x =>
     let notify := c_used x && (c_st x =? 1) in
-    let s1 := upd_slot j (set_st 2) s in
+    let s1 := if c_st x =? 1 then upd_slot j (set_st 2) s else s in       (* only a started connection changes state (fix 4f33a48) *)
     if notify then log_ev (c_sid x) 3 s1 else s1
   end.
 Definition activate_self (i : nat) (s : lsrv) : lsrv :=
@@ -186,7 +186,8 @@ Definition after_write (i : nat) (id : Z) (s : lsrv) : lsrv :=
   if mem id (v_wfail s) then upd_slot i (set_run false) s else s.
 Definition handle_msg (i : nat) (id : Z) (m : lmsg) (s : lsrv) : lsrv :=
   match m with
-  | MStart => after_write i id (activate i s)
+  | MStart => (* STARTDT con is written first; a failing write ends the connection without activating it (fix: ACTIVATED after the con) *)
+              if mem id (v_wfail s) then upd_slot i (set_run false) s else activate i s
   | MStop => after_write i id (upd_slot i (set_st 0) (deactivate i s))
   | MTest => after_write i id s
   | MIgnore => s
